@@ -283,6 +283,7 @@ def run_hasher1(case):
 def run_hashers(case):
     """(root, piece_layer, pieces, padding_file) of every v2-capable hasher on one file."""
     sbx = new_sandbox("hs")
+    cwd0 = os.getcwd()
     block = case.get("block", BLOCK)
     import torrentfile.hasher as th
     old_block = th.BLOCK_SIZE
@@ -305,7 +306,16 @@ def run_hashers(case):
                 cls = getattr(th, name)
                 kw = {"progress": 0, "progress_bar": ProgMixin.NoProg()}
                 if it:
-                    o = cls(path, P, hybrid=hybrid, **kw)
+                    if case.get("chdir_between"):
+                        # library use: a relative path, and the working directory changes between building the
+                        # hasher and draining it (a same-named other file lies in the new directory)
+                        os.chdir(sbx)
+                        o = cls("f.bin", P, hybrid=hybrid, **kw)
+                        os.makedirs(os.path.join(sbx, "elsewhere"), exist_ok=True)
+                        write_file(os.path.join(sbx, "elsewhere", "f.bin"), content("other/%d" % case["id"], size, 1))
+                        os.chdir(os.path.join(sbx, "elsewhere"))
+                    else:
+                        o = cls(path, P, hybrid=hybrid, **kw)
                     ys = []
                     for y in o:
                         ys.append(y)
@@ -342,6 +352,7 @@ def run_hashers(case):
         return out
     finally:
         th.BLOCK_SIZE = old_block
+        os.chdir(cwd0)
         rm(sbx)
 
 
